@@ -308,7 +308,7 @@ func splitTopLevel(s string) []string {
 func init() {
 	register(&Rule{
 		ID:    "C19.cache",
-		Props: []string{"C19"},
+		Props: []string{"C19", "C10"},
 		Doc:   "Forward and Reverse are functions of the current configuration: a field of a projection that is written by code reachable from Forward/Reverse (a memoised derived constant) must be written (reset) by every method that changes the configuration — otherwise a setter called after the first projection leaves a stale constant and Reverse no longer inverts Forward for the configuration in force",
 		Floor: 9,
 		Run:   runC19Cache,
@@ -413,7 +413,7 @@ func firstVar(m map[*types.Var]token.Pos, name string) *types.Var {
 func init() {
 	register(&Rule{
 		ID:    "C04.own",
-		Props: []string{"C04", "C10", "C16"},
+		Props: []string{"C04", "C10", "C16", "C08"},
 		Doc:   "the float slice a decoder hands to NewSequence belongs to the result alone: in every function reachable from the decoder entry points, the slice passed to NewSequence is made in that function (make / append from nil / a repository function proven to return fresh memory) and is not (a view of) memory held in the parser's own state, a global or the caller's input — a Sequence backed by a reused scratch buffer is overwritten when the next member or the next document is decoded",
 		Floor: 8,
 		Run:   runC04Own,
